@@ -187,8 +187,10 @@ def st_pert_case(draw, tier):
         vg = [g for g, sp in (("u", vsp[:2]), ("l", vsp[2:])) if sp == c_ * 2]
         if vg:
             vgrp = draw(st.sampled_from(vg))
-            occ = list(draw(st.permutations(list(ALPHABET["occ"]))))
-            virt = list(draw(st.permutations(list(ALPHABET["virt"]))))
+            occ = [x + "1" for x in ALPHABET["occ"]] + \
+                list(draw(st.permutations(list(ALPHABET["occ"]))))
+            virt = [x + "1" for x in ALPHABET["virt"]] + \
+                list(draw(st.permutations(list(ALPHABET["virt"]))))
             pool = {"o": occ, "v": virt}
             shared = [pool[c_].pop(), pool[c_].pop()]
             t2 = {"k": "T", "name": "t2", "bk": 0, "exp": 1,
